@@ -14,20 +14,22 @@ from . import c01
 
 LEVEL = "proof"
 MANIFEST = {
-    "technique": "Coq proof of finite source-derived obligations over every shipped template + uniqueness algebra + collection unambiguity; extracted predicate evaluated on every real output",
-    "text": "PARTIAL. Theorems C07_template_tags_known, C07_template_user_tags_paired_unique (finite obligations over Gen/Templates.v and Gen/Vocab.v, "
-            "regenerated from /repo on every run), C07_instances_unique / C07_pair_instances_injective (expansion over duplicate-free element lists keeps "
-            "names distinct), C07_collect_unambiguous (well-formed tags => the next regeneration collects exactly each tag's block). "
-            "C07_tags_consumed_shipped: for the three shipped files whose first-filtered lines parse into the template grammar of Model/EngineSM.v "
-            "(Test.TEMPLATEStateMachine.cpp, TEMPLATEReceiver.h, TEMPLATETransmitter.h; parse/render round trip and in_grammar16 checked by computation on "
-            "the source-derived lines) and EVERY model whose names satisfy wf_elements16 and every user-tag assignment, the generated file equals the reference "
-            "expansion and no line keeps a generator tag; the real bytes of these three files are compared with EngineSM.generate on every random case. "
-            "The universally quantified statement for the remaining shipped files (SIGNATURE / MEMBERS / nested transition tags, UML back ends) and the "
-            "USER-tag half (wf_fresh_file for all models) are NOT theorems; they are tied by evaluating the extracted predicate [represervable] and an "
-            "independent regex oracle on every file of real generations over random, adversarial and mutated models (UML: mutation kinds and directed "
-            "probes of harness/umlsynth.py, duplicate _PARAMS tags judged against the tags the documented scheme yields for the Coq model's operation list).",
-    "note": PRES_NOTE + " Name domain of the uniqueness clause: element names are distinct identifiers without '_' that do not equal a fixed tag name "
-            "of the template and do not spell On<State>Entry/Exit (known findings K-C07-2/3 reproduce what happens otherwise).",
+    "technique": "Coq proof for all models on the shipped file inside the block grammar (both halves of the property) + finite source-derived "
+                 "obligations over every shipped template + extracted predicate evaluated on every real output",
+    "text": "FOR ALL MODELS: C07_wf_out_Test_TEMPLATEStateMachine_cpp -- for every state-machine model whose element names satisfy the syntactic "
+            "names_ok (non-empty, letters/digits only, not a '_'-piece of a fixed USER tag name of the file, distinct per list) and every user-tag "
+            "assignment, what smgen.Generate's pipeline (Model/EngineSM.v, stage/phase order from Gen/Pipeline.v) writes for Test.TEMPLATEStateMachine.cpp "
+            "is createoutput of lines without generator tag that are a well-formed fresh file (Preserve.wf_fresh_file); C07_fixed_point_shipped / "
+            "C01_fixed_point_shipped instantiate C01 with it; C07_fresh_of_template is the generic theorem (any template of the block grammar with "
+            "in_grammar07 and distinct keys), C07_tags_consumed_shipped the generator-tag half for three shipped files. Model tied to the code by "
+            "comparing the real bytes of these files with EngineSM.generate on every random cpp/proto case; names_ok and wf_fresh_file are evaluated "
+            "(extracted) on the real outputs. FOR THE OTHER FILES (PARTIAL): C07_template_tags_known, C07_template_user_tags_paired_unique (finite "
+            "obligations over Gen/Templates.v), C07_instances_unique / C07_pair_instances_injective, C07_collect_unambiguous; the universally quantified "
+            "statement is tied by evaluating the extracted represervable and an independent regex oracle on every file of real generations.",
+    "note": PRES_NOTE + " For-all-models theorems hold for the fixed first-filter dictionary dict0 (project name X, namespace NS) and only for the "
+            "shipped files that use name/case/counter tags (Test.TEMPLATEStateMachine.cpp with USER tags; TEMPLATEReceiver.h, TEMPLATETransmitter.h "
+            "generator-tag half only). All other shipped files use signature/member/table/nested-transition tags that the Coq engine model does not "
+            "cover. Known findings K-C07-2/3 reproduce what happens outside names_ok.",
 }
 RULE = ("cases = real generations: random valid tables/interfaces/user-tag settings for the three state-machine back ends and the protocol generator, "
         "adversarial tables (repeated actions on different events, target-only states, rows without guard/action/target, names that are "
@@ -167,6 +169,15 @@ def engine_tie(ctx, kind, table, iface, desc):
         except Exception as e:  # noqa
             r = []
         ctx.count("engine_tie_" + tname)
+        if tname == "Test.TEMPLATEStateMachine.cpp":
+            # domain of C07_wf_out_Test_TEMPLATEStateMachine_cpp (syntactic names_ok, extracted): then the theorem promises a
+            # well-formed fresh file; the extracted wf_fresh_file is evaluated on the REAL lines as well
+            dom = ctx.km.call("d07.names_ok_shipped", lines, [list(r) for r in table], structs, protos, msgs) == b"1"
+            ctx.count("names_ok_%s" % ("true" if dom else "false"))
+            real_b = tree.get(tname.replace("TEMPLATE", "X"))
+            if dom and real_b is not None and ctx.km.call("wf_fresh", splitlines_keep(real_b)) != b"1":
+                ctx.violation("names_ok holds but the real Test.XStateMachine.cpp is not a well-formed fresh file",
+                              dict(desc, finding_key="names-ok-but-not-wf"))
         if not r:
             ctx.count("engine_tie_outside_model_domain")      # a name spells an unmodelled tag etc.
             continue
